@@ -1038,7 +1038,15 @@ func (rr *runRec) lateCalls() {
 	if n, err := rr.p.Write([]byte("~late~\n")); n != 0 || err != mpb.ErrDone {
 		bad("late Write returned (%d, %v), want (0, ErrDone)", n, err)
 	}
-	nOuts := func() int { rr.mu.Lock(); defer rr.mu.Unlock(); return len(rr.outs) }
+	nOuts := func() int {
+		rr.mu.Lock()
+		defer rr.mu.Unlock()
+		n := 0
+		for _, o := range rr.outs {
+			n += len(o.B)
+		}
+		return n
+	}
 	o0 := nOuts()
 	for i := range sc.Bars {
 		b := rr.bar(i)
@@ -1074,7 +1082,7 @@ func (rr *runRec) lateCalls() {
 	rr.p.Wait()
 	rr.p.Shutdown()
 	if o1 := nOuts(); o1 != o0 {
-		bad("late calls produced %d output writes", o1-o0)
+		bad("late calls produced %d bytes of output", o1-o0)
 	}
 }
 
